@@ -73,6 +73,7 @@ func c14GenChain(t *rapid.T) c14ChainCase {
 			c.Prov.Over = append(c.Prov.Over, c14Prov{At: rapid.SampledFrom(from).Draw(t, "provAt"), Mode: rapid.SampledFrom(modes).Draw(t, "provMode")})
 		}
 	}
+	c.Prov.PartialWithError = rapid.Bool().Draw(t, "provPartialWithError")
 	c.Events = w.signedEvents()
 	c.Rejected = w.rejected()
 	return c
